@@ -38,14 +38,14 @@ func pkceMay(verifier, challenge, method string, plainEnabled bool) bool {
 }
 
 type pkceSetup struct {
-	Enforce  int // 0 off, 1 public only, 2 all
-	Plain    bool
-	Tighten  int // 0 none, 1 enforce all after authorization, 2 disable plain after authorization
-	Client   string
-	RT       string
-	VKind    string // good | short | long | badchar
-	Method   string // S256 | plain | "" | s256 | PLAIN | none (no challenge)
-	BadChar  byte
+	Enforce int // 0 off, 1 public only, 2 all
+	Plain   bool
+	Tighten int // 0 none, 1 enforce all after authorization, 2 disable plain after authorization
+	Client  string
+	RT      string
+	VKind   string // good | short | long | badchar
+	Method  string // S256 | plain | "" | s256 | PLAIN | none (no challenge)
+	BadChar byte
 }
 
 func (p pkceSetup) String() string {
@@ -75,7 +75,7 @@ func C03(c *run.Ctx) {
 	if !c.Quick() {
 		maxLen = 4
 	}
-	alphabet := []string{"V", "wrong", "none", "downgrade"}
+	alphabet := []string{"V", "wrong", "none", "downgrade", "oddgrant"}
 	var seqs [][]string
 	var gen func(cur []string)
 	gen = func(cur []string) {
@@ -197,8 +197,12 @@ func C03(c *run.Ctx) {
 					}
 				}
 				form := url.Values{"grant_type": {"authorization_code"}, "code": {code}, "redirect_uri": {sp.RedirectURIs[0]}}
-				if att != "none" {
+				if att != "none" && att != "oddgrant" {
 					form.Set("code_verifier", verifier)
+				}
+				if att == "oddgrant" {
+					// no verifier and an unusual spelling of the grant type: handlers must not disagree on who is responsible
+					form.Set("grant_type", []string{"authorization_code authorization_code", "Authorization_Code", "AUTHORIZATION_CODE", "authorization_code refresh_token", " authorization_code"}[(ai+si+qi)%5])
 				}
 				out := w.Token(form, auth)
 				ok := out.Err == nil && out.S("access_token") != ""
